@@ -183,7 +183,7 @@ theorem addRoot_spec {f : Forest} (w : f.W) {t : HTree} (fr : Fresh f t) :
   have hc : ∀ a, (f.addRoot t).allHandles.count a = f.allHandles.count a + (handles t).count a := by
     intro a
     show (handlesList (f.roots ++ [t])).count a = _
-    rw [handlesList_append]
+    rw [fa_handlesList_append]
     simp [handlesList, allHandles]
   have hl : leafOkList (f.addRoot t).roots = true := by
     show leafOkList (f.roots ++ [t]) = true
@@ -198,13 +198,13 @@ theorem addRoot_spec {f : Forest} (w : f.W) {t : HTree} (fr : Fresh f t) :
   · intro x hx
     have : (f.addRoot t).value? x = f.value? x := by
       show (findList? x (f.roots ++ [t])).map HTree.value = _
-      rw [findList?_append]
+      rw [fa_findList?_append]
       simp only [findList?, (find?_none_iff _ _).2 hx]
       unfold value? get?
       cases findList? x f.roots <;> rfl
     rw [this]
   · show findList? t.handle (f.roots ++ [t]) = some t
-    rw [findList?_append]
+    rw [fa_findList?_append]
     have : t.handle ∉ f.allHandles := fr.disjoint _ (handle_mem_handles t)
     rw [(findList?_none_iff _ _).2 this]
     simp only [findList?, find?_self]
@@ -220,7 +220,7 @@ theorem newNode_spec {f : Forest} (w : f.W) (v : Value) :
     intro x hx; simpa [handles, handlesList] using hx
   refine ⟨rfl, ⟨?_, ?_, ?_⟩, ⟨?_, ?_, rfl, rfl, Nat.le_succ _⟩, ?_, ?_, ?_⟩
   · show (handlesList (f.roots ++ [HTree.node f.next v []])).Nodup
-    rw [handlesList_append]
+    rw [fa_handlesList_append]
     simp only [handlesList, handles, List.append_nil]
     rw [List.nodup_append]
     exact ⟨w.nodup, by simp, fun a ha b hb => by
@@ -229,7 +229,7 @@ theorem newNode_spec {f : Forest} (w : f.W) (v : Value) :
     rw [leafOkList_append, w.leaves]; simp [leafOkList, leafOk]
   · intro x hx'
     have : x ∈ handlesList (f.roots ++ [HTree.node f.next v []]) := hx'
-    rw [handlesList_append] at this
+    rw [fa_handlesList_append] at this
     simp only [handlesList, handles, List.append_nil, List.mem_append, List.mem_singleton] at this
     show x < f.next + 1
     rcases this with h' | h'
@@ -244,13 +244,13 @@ theorem newNode_spec {f : Forest} (w : f.W) (v : Value) :
   · intro x hx'
     have : (f.newNode v).1.value? x = f.value? x := by
       show (findList? x (f.roots ++ [HTree.node f.next v []])).map HTree.value = _
-      rw [findList?_append]
+      rw [fa_findList?_append]
       simp only [findList?, (find?_none_iff _ _).2 (hx x hx')]
       unfold value? get?
       cases findList? x f.roots <;> rfl
     rw [this]
   · show findList? f.next (f.roots ++ [HTree.node f.next v []]) = some _
-    rw [findList?_append, (findList?_none_iff _ _).2 hdead]
+    rw [fa_findList?_append, (findList?_none_iff _ _).2 hdead]
     simp [findList?, find?]
   · show (f.roots ++ [HTree.node f.next v []]).any _ = true
     simp [HTree.handle]
